@@ -643,6 +643,18 @@ func init() {
 		}
 		panic(m.unsupported("strings.ToValidUTF8 on a symbolic string that may hold non-ASCII bytes"))
 	})
+	// maps.clone (runtime: a shallow copy of the map - same keys, the values copied by assignment)
+	reg("maps.clone", func(m *Machine, _ *frame, _ token.Pos, _ *ssa.Function, a []Value) Value {
+		src, ok := a[0].(*Map)
+		if !ok || src == nil {
+			return a[0]
+		}
+		dst := &Map{KeyT: src.KeyT}
+		for _, e := range src.Entries {
+			dst.Entries = append(dst.Entries, &mapEntry{K: e.K, V: copyVal(e.V)})
+		}
+		return dst
+	})
 	reg("strings.ToLower", func(m *Machine, _ *frame, _ token.Pos, _ *ssa.Function, a []Value) Value {
 		s := a[0].(*Seq)
 		if g, ok := s.GoString(); ok {
